@@ -50,7 +50,8 @@ type c17World struct {
 	viol    []explore.SchedV
 	nconn   int
 	starts  int
-	faulted bool // the ban list could not be saved: nothing further is specified
+	faulted bool          // the ban list could not be saved: nothing further is specified
+	parked  *world.Client // a connection from the target's host that has done the handshake and nothing else
 }
 
 func (x *c17World) fail(clause, detail string) {
@@ -148,6 +149,12 @@ func (x *c17World) apply(op string) bool {
 			fs = append(fs, ref.F16(ref.FOptions, 1))
 		case "perm":
 			fs = append(fs, ref.F16(ref.FOptions, 2))
+		case "temp4": // the same numbers sent as 4-byte integers, as some clients send every integer field
+			fs = append(fs, ref.F32(ref.FOptions, 1))
+			p[1] = "temp"
+		case "perm4":
+			fs = append(fs, ref.F32(ref.FOptions, 2))
+			p[1] = "perm"
 		}
 		at := vrt.Now()
 		id := x.adm.Req(ref.TDisconnectUser, fs...)
@@ -228,7 +235,44 @@ func (x *c17World) apply(op string) bool {
 				world.Quiet()
 			}
 		}
+	case "park":
+		// a peer from the target's host completes the handshake and holds its login back
+		if x.parked != nil {
+			return false
+		}
+		if b, edge := x.banned("10.0.0.1"); b || edge {
+			return false
+		}
+		x.nconn++
+		x.parked = x.wd.Dial("10.0.0.1:3003")
+		x.parked.Handshake()
+		world.Settle(2 * time.Second)
+	case "unpark":
+		// ... and sends the login now: a login from a banned address is not processed
+		if x.parked == nil {
+			return false
+		}
+		b, edge := x.banned("10.0.0.1")
+		if edge {
+			return false
+		}
+		c := x.parked
+		x.parked = nil
+		id := c.Login123("user", "userpw", "uP", 1)
+		world.Settle(5 * time.Second)
+		c.Poll()
+		r := c.Reply(id)
+		served := r != nil && r.Err == 0
+		if b && served {
+			x.fail("door/login-from-banned-address-processed", fmt.Sprintf("a connection from 10.0.0.1 that had completed its handshake before the ban sent its login while the ban (%s) was in force and was logged in", x.banString()))
+		}
+		if !b && !served {
+			x.fail("door/unbanned-address-not-served", fmt.Sprintf("parked connection: reply %v", r))
+		}
+		c.Hangup()
+		world.Quiet()
 	case "restart":
+		x.parked = nil
 		x.wd.Start()
 		x.starts++
 		x.tgt = nil
@@ -297,7 +341,7 @@ func (x *c17World) canon() string {
 		impl = append(impl, ip+"="+st)
 	}
 	raw, _ := os.ReadFile(filepath.Join(x.wd.ConfigDir, "Banlist.yaml"))
-	return fmt.Sprintf("bans[%s] impl[%s] file=%x target=%v restarted=%v faulted=%v", strings.Join(s, ","), strings.Join(impl, ","), explore.Hash(string(raw))&0xffff*0+uint64(len(strings.Split(string(raw), "\n"))), x.tgt != nil, x.starts > 0, x.faulted)
+	return fmt.Sprintf("bans[%s] impl[%s] file=%x target=%v restarted=%v faulted=%v parked=%v", strings.Join(s, ","), strings.Join(impl, ","), explore.Hash(string(raw))&0xffff*0+uint64(len(strings.Split(string(raw), "\n"))), x.tgt != nil, x.starts > 0, x.faulted, x.parked != nil)
 }
 
 func c17Exec(hist []string) (res explore.SeqResult) {
@@ -384,7 +428,7 @@ func (x *c17World) sameAddress(first, second string) {
 }
 
 func c17Alphabet() []string {
-	return []string{"kick:none", "kick:temp", "kick:perm", "deafkick:none", "deafkick:temp", "faultkick:temp", "faultkick:perm", "conn:A:silent", "conn:B:silent", "conn:A:right", "conn:A:wrong", "conn:A2:right", "conn:A2:wrong", "conn:B:right", "conn:C:right", "conn:B:wrong",
+	return []string{"kick:none", "kick:temp", "kick:perm", "deafkick:none", "deafkick:temp", "faultkick:temp", "faultkick:perm", "conn:A:silent", "conn:B:silent", "kick:temp4", "kick:perm4", "park", "unpark", "conn:A:right", "conn:A:wrong", "conn:A2:right", "conn:A2:wrong", "conn:B:right", "conn:C:right", "conn:B:wrong",
 		"restart", "tick:1s", "tick:25m", "tick:31m", "tick:24h"}
 }
 
